@@ -360,5 +360,7 @@ pub mod datatypes;
 pub mod nogoods;
 pub mod obdd;
 pub mod parser;
+#[cfg(adf_obdd_verif)]
+pub mod verif;
 #[cfg(test)]
 mod test;
